@@ -49,11 +49,11 @@ CHECKS = {
         ref="5 C11", note=WRAP_NOTE),
     "C12": dict(
         technique=WRAP_TECH,
-        text="TLC checks BacklogBounded and BacklogExact (backlog = callers blocked, in stable states) on the queue model including hand-offs racing with time-outs and cancellations; the contract checks the reported queue_size gauge against the callers actually blocked after every stable step of the replayed and free-running executions, and that a refusal at a full backlog takes no virtual time. Arrivals racing inside the attempt-and-push section (one parked there in real time, two more started) must not take the backlog over its maximum. An arrival parked inside its attempt while queued callers are cancelled (still present, waiting for the limiter mutex to leave) finds the backlog at its maximum and is refused (cancel-arrival scenarios, rule strictfull).",
+        text="TLC checks BacklogBounded and BacklogExact (backlog = callers blocked, in stable states) on the queue model including hand-offs racing with time-outs and cancellations; the contract checks the reported queue_size gauge against the callers actually blocked after every stable step of the replayed and free-running executions, and that a refusal at a full backlog takes no virtual time. Arrivals racing inside the attempt-and-push section (one parked there in real time, two more started) must not take the backlog over its maximum. An arrival parked inside its attempt while queued callers are cancelled (still present, waiting for the limiter mutex to leave) finds the backlog at its maximum and is refused (cancel-arrival scenarios, rule strictfull). Default bound: a requested backlog size of zero or below means 100 - one holder, 102 arrivals, the last two refused at once.",
         ref="5 C12", note=WRAP_NOTE),
     "C13": dict(
         technique=WRAP_TECH,
-        text="Virtual-clock bounds: TLC checks DeadlineBound, TimeoutBound, CancelBound and NoEarlyRefusal on the models with Tick allowed between any two gates; the contract rejects a caller blocked at or past its bound in a stable state (class bound) and a refusal without a reason (class early) in every recorded execution, with instants exact to the tick. Temporal form under LiveSpec: a cancelled sleeper returns (CancelWakes), nobody sleeps past the deadline (DeadlineWakes; violated by the as-delivered design) or past a due timer (TimeoutWakes). Every other scenario context also carries a far deadline of its own. Real time: a caller that arrives while a completion is parked in mid-release and is then cancelled must have returned when the step has settled (rule promptcancel); the real-time scenarios run first, and what they establish stands if a change stalls the virtual-clock replays.",
+        text="Virtual-clock bounds: TLC checks DeadlineBound, TimeoutBound, CancelBound and NoEarlyRefusal on the models with Tick allowed between any two gates; the contract rejects a caller blocked at or past its bound in a stable state (class bound) and a refusal without a reason (class early) in every recorded execution, with instants exact to the tick. Temporal form under LiveSpec: a cancelled sleeper returns (CancelWakes), nobody sleeps past the deadline (DeadlineWakes; violated by the as-delivered design) or past a due timer (TimeoutWakes). Every other scenario context also carries a far deadline of its own. Real time: a caller that arrives while a completion is parked in mid-release and is then cancelled must have returned when the step has settled (rule promptcancel); the real-time scenarios run first, and what they establish stands if a change stalls the virtual-clock replays. Deadlines that mean never (years 2263, 3000, 9999) through the deadline limiter: nobody is refused before release or cancellation.",
         ref="5 C13", note=WRAP_NOTE),
     "C04": dict(
         technique="TLA+ contract of the limit algorithms as a trace acceptor (spec/LimitTrace.tla, class bounds) validating recorded sample sequences of every algorithm bare, traced and windowed; exact TLA+ models of AIMD (spec/Aimd.tla) and of Vegas in the float-exact sub-domain (spec/VegasModel.tla) model-checked by TLC and replayed transition by transition on the real objects",
@@ -69,7 +69,7 @@ CHECKS = {
         ref="5 C07", note=ALGO_NOTE + " Vegas probe multiplier >= 4 (see DESIGN section 7: with 1 or 2 nothing can grow below an estimate of 2, which C15's own bound forces)."),
     "C08": dict(
         technique="TLC checks Monotone on the exact Vegas model (spec/VegasModel.tla) for every reachable state and every RTT pair; recorded twin-instance experiments (identical history, jitter forced through verif accessors, last sample differing only in RTT) validated by spec/LimitTrace.tla (class monotone)",
-        text="Relational (two-run) property: for Vegas, Gradient and Gradient2, two identically prepared real instances receive a last sample with RTT lo < hi (both at or above the baseline, neither a probe): the contract rejects esthi > estlo. 45 RTT pairs around the thresholds per prepared state, 90-600 prepared states; plus the universally quantified invariant on the Vegas integer model. Half of the prepared histories carry start times, and the final sample's start time is placed so that some of the compared RTTs make it complete just before an earlier completion and some after. One Gradient history in two ends one to four healthy samples after a forced baseline probe (minimums up to 40, well above the queue allowance), so the pair is judged on the state a probe leaves behind.",
+        text="Relational (two-run) property: for Vegas, Gradient and Gradient2, two identically prepared real instances receive a last sample with RTT lo < hi (both at or above the baseline, neither a probe): the contract rejects esthi > estlo. 45 RTT pairs around the thresholds per prepared state, 90-600 prepared states; plus the universally quantified invariant on the Vegas integer model. Half of the prepared histories carry start times, and the final sample's start time is placed so that some of the compared RTTs make it complete just before an earlier completion and some after. One Gradient history in two ends one to four healthy samples after a forced baseline probe (minimums up to 40, well above the queue allowance), so the pair is judged on the state a probe leaves behind. One configuration in six asks for a smoothing factor outside [0, 1] (-0.1, -0.5, -0.75, -1, -7, 1.5): the constructors must fall back to their defaults.",
         ref="5 C08", note=ALGO_NOTE),
     "C15": dict(
         technique="TLC checks BaselineIsMin on the exact Vegas model; recorded sample sequences (real random jitter) validated by spec/LimitTrace.tla (class baseline): baseline <= RTT, baseline is an RTT seen since the last reset, resets recur within the bound",
@@ -85,15 +85,15 @@ CHECKS = {
         ref="5 C18", note="Numerical accuracy of the floating-point primitives is not modelled (order and equality of exact bit patterns only); positive finite samples."),
     "C14": dict(
         technique="TLA+ contract of one intercepted operation (spec/Grpc.tla); TLC enumerates the full product of inputs (GrpcMC) and every case is executed on the real interceptors with recording doubles; recorded random operation sequences and full-duplex stream scenarios validated by TLC (GrpcTrace); implementation-shaped model of two operations in flight on one stream (spec/GrpcStream.tla)",
-        text="All 10 368 combinations of operation (unary server / unary client / RecvMsg / SendMsg) x grant x inner error x classifier answer x limit-exceeded code x the classifier's error value (plain / gRPC status of another code / wrapped status) x default-or-custom classifiers x default-or-custom limit-exceeded classifier x name/tag options absent / first / last x context live / cancelled during the call / expired are executed against the real interceptors with recording limiter/listener doubles and fake handler, invoker and ServerStream; the observation (limiter consulted, wrapped call run, listener method on which token, returned value / status code) must equal the contract's. 3k-20k random operations are validated in the other direction. Full duplex: one RecvMsg and one SendMsg overlapping on the same wrapped stream in four orders of entering and leaving the transport x every grant / error / classification / option combination (2 560 operations), each operation's own observation validated against the same contract; the design-level model spec/GrpcStream.tla (token in a local variable: exactly once; token parked in a per-stream field: violated) is model-checked next to it.",
+        text="All 10 368 combinations of operation (unary server / unary client / RecvMsg / SendMsg) x grant x inner error x classifier answer x limit-exceeded code x the classifier's error value (plain / gRPC status of another code / wrapped status) x default-or-custom classifiers x default-or-custom limit-exceeded classifier x name/tag options absent / first / last x context live / cancelled during the call / expired are executed against the real interceptors with recording limiter/listener doubles and fake handler, invoker and ServerStream; the observation (limiter consulted, wrapped call run, listener method on which token, returned value / status code) must equal the contract's. 3k-20k random operations are validated in the other direction. Full duplex: one RecvMsg and one SendMsg overlapping on the same wrapped stream in four orders of entering and leaving the transport x every grant / error / classification / option combination (2 560 operations), each operation's own observation validated against the same contract; the design-level model spec/GrpcStream.tla (token in a local variable: exactly once; token parked in a per-stream field: violated) is model-checked next to it. Two interceptors of the package chained (contract ChainG, 1 536 cases over all four kinds): the layer entered first gates on its own limiter before the inner layer is entered and completes its token last, classifying what the inner layer returned.",
         ref="5 C14", note="Interceptors are stateless, so sequences are independent operations; no network; the stream classifiers are taken as named (RecvMsg -> server stream classifier, SendMsg -> client stream classifier)."),
     "C20": dict(
         technique="implementation-shaped TLA+ model of the registries' poller life cycle (spec/Registry.tla) model-checked by TLC with the as-delivered and flag-only variants as negative configurations; recorded Start/Stop/Register/advance/sample sequences of both bundled registries on a virtual clock validated by TLC against spec/RegistryTrace.tla; emission checked through the Limiter contract (in-flight sample at the admission decision, limit gauge)",
-        text="TLC checks AtMostOnePoller, PollOnlyWhileStarted, StopTerminates (no deadlock with a poll in progress) and NoPollerAfterStop for sequential and two concurrent callers; the code as delivered (started never set) and the naive repair (flag only: deadlock) must fail. Real go-metrics and Datadog registries (statsd client writing to a buffer) are driven through seeded call sequences in a synctest bubble: polls per gauge per ticker instant, forwarding of distribution/timing/count samples to the backend metric of the right kind under the prefixed name, and a poller left after the last Stop are compared with the contract after every call. Every processed sample of every limit algorithm (probes included) emits one RTT, one in-flight and a drop increment iff drop (LimitTrace class metrics). A grant by a partitioned strategy emits one in-flight sample tagged with the partition charged, valued at that partition's count (Partition contract); in free-running concurrent histories of the simple and precise strategies the sample of every acquire must be the count at the call's linearisation point (GateTrace with CheckN). Naming: for every constructor (go-metrics, Datadog over a caller's client, Datadog by address against a fake agent on a loopback UDP socket) and requested prefix (empty, with and without trailing dot) a listener's and a polled gauge's metric must arrive under exactly EffPrefix + id (RegistryTrace Naming).",
+        text="TLC checks AtMostOnePoller, PollOnlyWhileStarted, StopTerminates (no deadlock with a poll in progress) and NoPollerAfterStop for sequential and two concurrent callers; the code as delivered (started never set) and the naive repair (flag only: deadlock) must fail. Real go-metrics and Datadog registries (statsd client writing to a buffer) are driven through seeded call sequences in a synctest bubble: polls per gauge per ticker instant, forwarding of distribution/timing/count samples to the backend metric of the right kind under the prefixed name, and a poller left after the last Stop are compared with the contract after every call. Every processed sample of every limit algorithm (probes included) emits one RTT, one in-flight and a drop increment iff drop (LimitTrace class metrics). A grant by a partitioned strategy emits one in-flight sample tagged with the partition charged, valued at that partition's count (Partition contract); in free-running concurrent histories of the simple and precise strategies the sample of every acquire must be the count at the call's linearisation point (GateTrace with CheckN). Naming: for every constructor (go-metrics, Datadog over a caller's client, Datadog by address against a fake agent on a loopback UDP socket) and requested prefix (empty, with and without trailing dot) a listener's and a polled gauge's metric must arrive under exactly EffPrefix + id (RegistryTrace Naming). Restart: a polled gauge's backend value in two consecutive Start..Stop periods (go-metrics and Datadog) must follow the supplier.",
         ref="5 C20", note="Sequential callers in the recorded sequences; virtual clock; per-sample emission of the limit algorithms is covered by the limit traces."),
     "C19": dict(
         technique=WRAP_TECH + "; free-running pool scenarios (fixed and generic pools, FIFO/LIFO/random) with 'everyone is served' runs",
-        text="Never more than the limit held: the contract's atomic-gate check on every delegate attempt and every grant (black-box mode for the fixed pool). Everyone served: TLC's TerminalAllServed on the acyclic models (every maximal behaviour ends with all callers granted and completed) and, on the real pools, seeded runs with callers <= limit + backlog whose every refusal or unanswered caller is rejected (class starved). Temporal form: WakeUp under LiveSpec and AllServed under ServeSpec (weak fairness of the library's steps, of arrivals and of completions).",
+        text="Never more than the limit held: the contract's atomic-gate check on every delegate attempt and every grant (black-box mode for the fixed pool). Everyone served: TLC's TerminalAllServed on the acyclic models (every maximal behaviour ends with all callers granted and completed) and, on the real pools, seeded runs with callers <= limit + backlog whose every refusal or unanswered caller is rejected (class starved). Temporal form: WakeUp under LiveSpec and AllServed under ServeSpec (weak fairness of the library's steps, of arrivals and of completions). The check / increment window of the weakened lock model is realised through generic pools (simple strategy, all three orderings) and fixed pools: caller 1 parked at the strategy's schedule point, caller 2 started, the recorded history judged as a counting gate (GateTrace).",
         ref="5 C19", note=WRAP_NOTE),
 }
 
